@@ -39,6 +39,11 @@ class EncodingMismatch(Exception):
 F64 = z3.Float64()
 RNE = z3.RNE()
 BV32 = z3.BitVecSort(32)
+SIGN = z3.BitVecVal(1 << 63, 64)
+EXPMASK = z3.BitVecVal(0x7FF0000000000000, 64)
+MANTMASK = z3.BitVecVal(0x000FFFFFFFFFFFFF, 64)
+ABSMASK = z3.BitVecVal(0x7FFFFFFFFFFFFFFF, 64)
+ZERO64 = z3.BitVecVal(0, 64)
 
 CTX = None  # the active Ctx (one per process)
 
@@ -313,12 +318,33 @@ def lift_int(o):
 class SFloat:
     """nn: statically known not-NaN (lets isnan() fold without a solver call)."""
 
-    __slots__ = ("e", "nn")
+    __slots__ = ("_e", "_b", "nn")
     __array_priority__ = 1000
 
-    def __init__(self, e, nn=False):
-        self.e = e
+    def __init__(self, e=None, nn=False, b=None):
+        """profile fp: a float64 is carried as an FP term (e) and/or its IEEE bit pattern (b, BitVec 64).
+        Symbols and constants are bit-backed, so comparisons / selection / equality stay in the bit-vector theory
+        (two orders of magnitude cheaper in z3 than fp.lt chains); arithmetic results carry an FP term."""
+        self._e = e
+        self._b = b
         self.nn = nn
+
+    @property
+    def e(self):
+        if self._e is None:
+            self._e = z3.fpBVToFP(self._b, F64)
+        return self._e
+
+    @property
+    def b(self):
+        if self._b is None:
+            self._b = z3.fpToIEEEBV(self._e)
+        return self._b
+
+    @property
+    def key(self):
+        """z3 term id used for caches / tokens."""
+        return (self._b if self._b is not None else self._e).get_id()
 
     # ---- arithmetic
     def _arith(self, o, op, rev=False):
@@ -372,6 +398,8 @@ class SFloat:
     def __neg__(self):
         c = ctx()
         if c.profile == "fp":
+            if self._b is not None:
+                return SFloat(None, self.nn, z3.simplify(self._b ^ SIGN))
             return SFloat(z3.simplify(z3.fpNeg(self.e)), self.nn)
         return SFloat(z3.simplify(-self.e), True)
 
@@ -381,6 +409,8 @@ class SFloat:
     def __abs__(self):
         c = ctx()
         if c.profile == "fp":
+            if self._b is not None:
+                return SFloat(None, self.nn, z3.simplify(self._b & ~SIGN))
             return SFloat(z3.simplify(z3.fpAbs(self.e)), self.nn)
         return SFloat(z3.simplify(z3.If(self.e >= 0, self.e, -self.e)), True)
 
@@ -436,12 +466,12 @@ class SFloat:
         return arr.scalar_ufunc(ufunc, method, *inputs, **kw)
 
     def __repr__(self):
-        return f"[[f#{self.e.get_id()}]]"
+        return f"[[f#{self.key}]]"
 
     __str__ = __repr__
 
     def __format__(self, spec):
-        return f"[[f#{self.e.get_id()}]]"
+        return f"[[f#{self.key}]]"
 
 
 def lift_float(o):
@@ -452,7 +482,7 @@ def lift_float(o):
         return o
     if isinstance(o, SBool):
         if c.profile == "fp":
-            return SFloat(z3.If(o.e, fp_const(1.0), fp_const(0.0)), True)
+            return SFloat(None, True, z3.If(o.e, z3.BitVecVal(float_bits(1.0), 64), ZERO64))
         return SFloat(z3.If(o.e, z3.RealVal(1), z3.RealVal(0)), True)
     if isinstance(o, SInt):
         if c.profile == "fp":
@@ -463,7 +493,7 @@ def lift_float(o):
     if isinstance(o, (int, float, np.floating, np.integer)):
         o = float(o)
         if c.profile == "fp":
-            return SFloat(fp_const(o), o == o)
+            return SFloat(fp_const(o), o == o, z3.BitVecVal(float_bits(o), 64))
         if o != o:
             raise RealisationError("NaN constant in profile 'real'")
         if o in (math.inf, -math.inf):
@@ -482,12 +512,10 @@ def bool_times_float(b: SBool, x):
         raise RealisationError("bool * inf")
     if c.profile == "real":
         return SFloat(z3.simplify(z3.If(b.e, x.e, z3.RealVal(0))), True)
-    zero = z3.If(
-        z3.Or(z3.fpIsNaN(x.e), z3.fpIsInf(x.e)),
-        z3.fpNaN(F64),
-        z3.If(z3.fpIsNegative(x.e), z3.fpMinusZero(F64), z3.fpPlusZero(F64)),
-    )
-    return SFloat(z3.simplify(z3.If(b.e, x.e, zero)), False)
+    xb = x.b
+    nonfinite = (xb & EXPMASK) == EXPMASK
+    zero = z3.If(nonfinite, z3.BitVecVal(float_bits(math.nan), 64), xb & SIGN)
+    return SFloat(None, False, z3.simplify(z3.If(b.e, xb, zero)))
 
 
 def ite(c, a, b):
@@ -511,6 +539,8 @@ def ite(c, a, b):
     fa, fb = lift_float(a), lift_float(b)
     if isinstance(fa, _Inf) or isinstance(fb, _Inf):
         raise RealisationError("ite over an infinite constant in profile 'real'")
+    if ctx().profile == "fp" and (fa._b is not None or fb._b is not None):
+        return SFloat(None, fa.nn and fb.nn, z3.simplify(z3.If(c.e, fa.b, fb.b)))
     return SFloat(z3.simplify(z3.If(c.e, fa.e, fb.e)), fa.nn and fb.nn)
 
 
@@ -546,12 +576,25 @@ def iff(a, b):
     return bool(a) == bool(b)
 
 
+def nan_term(x):
+    if x.nn:
+        return z3.BoolVal(False)
+    if x._b is not None:
+        return z3.And((x._b & EXPMASK) == EXPMASK, (x._b & MANTMASK) != ZERO64)
+    return z3.fpIsNaN(x.e)
+
+
+def order_key(b):
+    """IEEE bits -> unsigned-comparable key (total order on non-NaN values, -0 just below +0)."""
+    return z3.If(z3.Extract(63, 63, b) == 1, ~b, b | SIGN)
+
+
 def isnan(x):
     """math.isnan / np.isnan on a scalar."""
     if isinstance(x, SFloat):
         if x.nn or ctx().profile == "real":
             return False
-        return mk_bool(z3.fpIsNaN(x.e))
+        return mk_bool(nan_term(x))
     if isinstance(x, (SInt, SBool)):
         return False
     if x is None:
@@ -565,6 +608,8 @@ def isinf(x):
     if isinstance(x, SFloat):
         if ctx().profile == "real":
             return False
+        if x._b is not None:
+            return mk_bool((x._b & ABSMASK) == EXPMASK)
         return mk_bool(z3.fpIsInf(x.e))
     if isinstance(x, (SInt, SBool)):
         return False
@@ -579,7 +624,12 @@ def same_bits(a, b):
             return True
         return float_bits(fa) == float_bits(fb)
     fa, fb = lift_float(a), lift_float(b)
-    return mk_bool(fa.e == fb.e)
+    if ctx().profile == "real":
+        return mk_bool(fa.e == fb.e)
+    if fa.nn and fb.nn:
+        return mk_bool(fa.b == fb.b)
+    na, nb = nan_term(fa), nan_term(fb)
+    return mk_bool(z3.Or(z3.And(na, nb), z3.And(z3.Not(na), z3.Not(nb), fa.b == fb.b)))
 
 
 def feq(a, b):
@@ -609,6 +659,7 @@ class Ctx:
         self.feas_s = 0.0
         self.n_unknown_feas = 0
         self.fmod_K = 3
+        self.argsort_mode = "fork"
         self.bound_notes = set()
         self.queue = []
         self._fresh = 0
@@ -622,6 +673,8 @@ class Ctx:
         self.model = None
         self.assumption_notes = []
         self._sqrt_cache = {}
+        self.aux_decls = {}  # symbols introduced by the shim (tie-break keys, ...): part of every model
+        self.preferences = []  # soft constraints used only when extracting a counterexample model
 
     def int_val(self, v):
         return z3.BitVecVal(v, 32) if self.profile == "fp" else z3.IntVal(v)
@@ -788,15 +841,24 @@ class Ctx:
         if isinstance(a, _Inf) or isinstance(b, _Inf):
             return _cmp_inf(op, a, b)
         if self.profile == "fp":
-            f = {
-                "lt": z3.fpLT,
-                "le": z3.fpLEQ,
-                "gt": z3.fpGT,
-                "ge": z3.fpGEQ,
-                "eq": z3.fpEQ,
-                "ne": lambda x, y: z3.Not(z3.fpEQ(x, y)),
-            }[op]
-            return mk_bool(f(a.e, b.e))
+            if a._b is None and b._b is None:
+                f = {"lt": z3.fpLT, "le": z3.fpLEQ, "gt": z3.fpGT, "ge": z3.fpGEQ, "eq": z3.fpEQ,
+                     "ne": lambda x, y: z3.Not(z3.fpEQ(x, y))}[op]
+                return mk_bool(f(a.e, b.e))
+            if op in ("gt", "ge"):
+                a, b, op = b, a, {"gt": "lt", "ge": "le"}[op]
+            A, B = a.b, b.b
+            ok = z3.And(z3.Not(nan_term(a)), z3.Not(nan_term(b)))
+            both_zero = z3.And((A & ABSMASK) == ZERO64, (B & ABSMASK) == ZERO64)
+            if op == "lt":
+                r = z3.And(ok, z3.ULT(order_key(A), order_key(B)), z3.Not(both_zero))
+            elif op == "le":
+                r = z3.And(ok, z3.Or(z3.ULE(order_key(A), order_key(B)), both_zero))
+            elif op == "eq":
+                r = z3.And(ok, z3.Or(A == B, both_zero))
+            else:
+                r = z3.Not(z3.And(ok, z3.Or(A == B, both_zero)))
+            return mk_bool(r)
         f = {
             "lt": lambda x, y: x < y,
             "le": lambda x, y: x <= y,
